@@ -91,41 +91,7 @@ func checkC07(p *core.Program, r *core.Report) {
 	if same {
 		// selected by UUID() == categoryUUID among recv.categories
 		cat := exitRecv[0]
-		selOK := false
-		for v := range core.BackSlice(cat, nil) {
-			ld, ok := v.(*ssa.UnOp)
-			if !ok {
-				continue
-			}
-			ia, ok := ld.X.(*ssa.IndexAddr)
-			if !ok {
-				continue
-			}
-			fromCats := false
-			for w := range core.BackSlice(ia.X, nil) {
-				if fa, ok := w.(*ssa.FieldAddr); ok && core.FieldAddrVar(fa).Name() == "categories" {
-					fromCats = true
-				}
-			}
-			if !fromCats {
-				continue
-			}
-			// the edge that carries this element into the phi is controlled by element.UUID() == categoryUUID
-			for _, in := range ld.Block().Instrs {
-				bo, ok := in.(*ssa.BinOp)
-				if !ok || bo.Op != token.EQL {
-					continue
-				}
-				l, rr := bo.X, bo.Y
-				isUUIDOfElem := func(x ssa.Value) bool {
-					c, ok := x.(*ssa.Call)
-					return ok && c.Call.IsInvoke() && c.Call.Method.Name() == "UUID" && c.Call.Value == ssa.Value(ld)
-				}
-				if (isUUIDOfElem(l) && rr == ssa.Value(catP)) || (isUUIDOfElem(rr) && l == ssa.Value(catP)) {
-					selOK = true
-				}
-			}
-		}
+		selOK := c07SelectedByUUID(cat, catP, 0)
 		r.Check(selOK, "R1", "routeToCategory/category-selected-by-uuid", p.Pos(rtc.Pos()), "element of recv.categories with UUID() == categoryUUID", "the category is not selected by comparing its UUID with the requested category UUID")
 	}
 	a := newResult.Call.Args
@@ -470,4 +436,72 @@ func checkC07(p *core.Program, r *core.Report) {
 		}
 	}
 	r.Check(okSave, "R5", "Results.Save/always-stores", p.Pos(save.Pos()), "r[key] = result dominates every return", "Results.Save does not store the new result on every path: a re-routing with the same value and category keeps the earlier input, node and extra")
+}
+
+// c07SelectedByUUID: cat is an element of recv.categories picked on the edge where element.UUID() == want — in this
+// function, or in a helper of the same package that is handed `want` and returns the element it found.
+func c07SelectedByUUID(cat ssa.Value, want ssa.Value, depth int) bool {
+	if depth > 2 {
+		return false
+	}
+	for v := range core.BackSlice(cat, nil) {
+		if call, ok := v.(*ssa.Call); ok {
+			g := call.Call.StaticCallee()
+			if g == nil || len(g.Blocks) == 0 || cat.Parent() == nil || core.FuncPkgPath(g) != core.FuncPkgPath(cat.Parent()) {
+				continue
+			}
+			for i, a := range call.Call.Args {
+				if a != want || i >= len(g.Params) {
+					continue
+				}
+				all, n := true, 0
+				for _, ret := range core.Returns(g) {
+					if len(ret.Results) == 0 || core.IsNilConst(ret.Results[0]) {
+						continue
+					}
+					n++
+					if !c07SelectedByUUID(ret.Results[0], g.Params[i], depth+1) {
+						all = false
+					}
+				}
+				if all && n > 0 {
+					return true
+				}
+			}
+			continue
+		}
+		ld, ok := v.(*ssa.UnOp)
+		if !ok {
+			continue
+		}
+		ia, ok := ld.X.(*ssa.IndexAddr)
+		if !ok {
+			continue
+		}
+		fromCats := false
+		for w := range core.BackSlice(ia.X, nil) {
+			if fa, ok := w.(*ssa.FieldAddr); ok && core.FieldAddrVar(fa).Name() == "categories" {
+				fromCats = true
+			}
+		}
+		if !fromCats {
+			continue
+		}
+		// the edge that carries this element onwards is controlled by element.UUID() == want
+		for _, in := range ld.Block().Instrs {
+			bo, ok := in.(*ssa.BinOp)
+			if !ok || bo.Op != token.EQL {
+				continue
+			}
+			l, rr := bo.X, bo.Y
+			isUUIDOfElem := func(x ssa.Value) bool {
+				c, ok := x.(*ssa.Call)
+				return ok && c.Call.IsInvoke() && c.Call.Method.Name() == "UUID" && c.Call.Value == ssa.Value(ld)
+			}
+			if (isUUIDOfElem(l) && rr == want) || (isUUIDOfElem(rr) && l == want) {
+				return true
+			}
+		}
+	}
+	return false
 }
